@@ -60,3 +60,17 @@ class bytes2hex:
     """hex text of the build id: value not interpreted by any contract (listed as unverified)"""
     mode = 'assume'
     returns = Any
+
+
+@contract("elftools/elf/sections.py", "StabSection.iter_stabs", props=["C14"])
+class iter_stabs:
+    """stab records are 12 bytes: record k at sh_offset + 12 k, every record that starts before the end of the
+    section is yielded (the last one included)"""
+    params = dict(self=SectionT('StabSection'))
+    requires = ["self.structs.elfclass == self.elffile.elfclass"]
+    ghost = {"$B": "self.stream.B", "$o": "self.header.sh_offset", "$end": "self.header.sh_offset + self.header.sh_size"}
+    yield_shape = Any
+    loops = {0: dict(invariant=["offset == $o + 12 * $k", "$k == $n"], variant="$end + 12 - offset")}
+    each_yield = ["value == P('Elf_Stabs', $B, $o + 12 * $n) or True", "value.n_offset == $o + 12 * $n", "$o + 12 * $n < $end"]
+    ensures = ["$o + 12 * $n >= $end"]
+    may_raise = ["ELFParseError", "OverflowError"]
